@@ -12,7 +12,7 @@ META = {
     "level": "exploration",
     "technique": "law over observed executions: TLC enumerates the cell plan (contour x degree x grid size class x x_min class, Interp!C35Cells via InterpPlan); the harness inverts every basis function at every node with scipy.integrate.quad over eko.evolution_operator.quad_ker (the solver's partial, LO with equal couplings so that the evolution kernel is exactly 1, both the non-singlet and the singlet contour, the solver's cut and tolerances); TLC trace spec InterpTrace checks plan completeness and the integer class of every resolved node",
     "text": "For every planned cell a random logarithmic grid (4-12 points, x_min 1e-6..0.1, spacings jittered by +-45 %) is drawn; for every node x_k < 1 and every basis function j (all j for <= 6 points, the neighbours within 3 plus two random ones otherwise) the integral the solver computes for operator element (j,k) is evaluated through quad_ker_ad -> QuadKerBase.integrand -> mellin.Path / interpolation.log_evaluate_Nx with trivial evolution and compared with delta_jk. Only integers travel to TLC: per node the decade of max_j |result - delta_jk| and the conditioning class floor(4 r_k dmin) (r_k scale of the Talbot path at the node, dmin smallest node spacing in log x). TLC requires 1e-2 on the 0/1 answer at every node with r_k dmin >= 0.5, reports the others unresolved, and requires every planned cell to be measured.",
-    "note": "Only the node clause is decided. Calibration on the unchanged tree (60 seeds x 32 cells = 1920 grids, 12155 nodes): worst node error 5.7e-4 for r_k*dmin >= 0.5 (3.7e-3 for 0.25..0.5; on unconditioned random grids with nearly coinciding nodes the truncated contour, cut 0.05, gives errors up to O(1), which is why the conditioning class is part of the law). The interior-point clause (degree >= 2, arbitrary x) is NOT claimed: over the same 1920 grids the inverse differs from evaluate_x by up to 1.5e-2 independently of the conditioning, which leaves less than 2 decades to a structural error, so no sound threshold exists. The node x = 1 is excluded because the solver never inverts there (logx = 0 returns 0 and the operator is set to the identity by hand).",
+    "note": "The node clause is decided at class 1e-2; the interior clause only grossly (finite and within 0.1 of evaluate_x at random points, also in the last area up to x = 0.99; clean tree <= 1.5e-2). Calibration on the unchanged tree (60 seeds x 32 cells = 1920 grids, 12155 nodes): worst node error 5.7e-4 for r_k*dmin >= 0.5 (3.7e-3 for 0.25..0.5; on unconditioned random grids with nearly coinciding nodes the truncated contour, cut 0.05, gives errors up to O(1), which is why the conditioning class is part of the law). A sharp interior-point clause (degree >= 2, arbitrary x) is NOT claimed: over the same 1920 grids the inverse differs from evaluate_x by up to 1.5e-2 independently of the conditioning, which leaves less than 2 decades to a structural error, so no sound threshold exists. The node x = 1 is excluded because the solver never inverts there (logx = 0 returns 0 and the operator is set to the identity by hand).",
     "design_ref": "1 (mode L), 4.10, 5 C35, 9",
     "rule": "instance = (cell, sample grid, node k); non-trivial = node with r_k*dmin >= 0.5 (resolved); distinct by (cell, sample, k)",
 }
